@@ -1370,7 +1370,8 @@ NiShape* NifFile::CloneShape(NiShape* srcShape, const std::string& destShapeName
 	if (destBoneCont)
 		destBoneCont->boneRefs.Clear();
 
-	if (rootNode && srcRootNode) {
+	// Within the same file every node already is where it belongs
+	if (rootNode && srcRootNode && srcNif != this) {
 		std::function<void(NiNode*)> cloneNodes = [&](NiNode* srcNode) -> void {
 			std::string boneName = srcNode->name.get();
 
